@@ -238,3 +238,35 @@ pub fn run_in_sim<T: Send + 'static, F: FnOnce() -> T + Send + 'static>(plan: &S
         Err(_) => (SimResult::Panic("simulated thread died".into()), SimStats::default()),
     }
 }
+
+/// The repository crates log through the `log` facade; a record is built (its arguments
+/// are evaluated) only if the level is enabled, and its `Display` / `Debug` implementations
+/// run only if somebody formats it. This logger formats every record and throws the text
+/// away, so that `RUST_LOG=trace` behaviour can be part of a tier-L run. The level is
+/// process-wide: checks switch it between phases, not between threads.
+struct SinkLogger;
+
+impl log::Log for SinkLogger {
+    fn enabled(&self, _: &log::Metadata) -> bool {
+        true
+    }
+    fn log(&self, record: &log::Record) {
+        struct Sink;
+        impl std::fmt::Write for Sink {
+            fn write_str(&mut self, _: &str) -> std::fmt::Result {
+                Ok(())
+            }
+        }
+        let _ = std::fmt::write(&mut Sink, *record.args());
+    }
+    fn flush(&self) {}
+}
+
+pub fn set_log_level(trace: bool) {
+    static ONCE: std::sync::Once = std::sync::Once::new();
+    static LOGGER: SinkLogger = SinkLogger;
+    ONCE.call_once(|| {
+        let _ = log::set_logger(&LOGGER);
+    });
+    log::set_max_level(if trace { log::LevelFilter::Trace } else { log::LevelFilter::Off });
+}
